@@ -26,7 +26,7 @@ pub use zonesmeta::CLIMATEMETADATA;
 pub fn total_radiation_in_july_by_orientation(climate: &ClimateZone) -> HashMap<Orientation, f32> {
     MONTHLYRADDATA
         .lock()
-        .unwrap()
+        .unwrap_or_else(|e| e.into_inner())
         .iter()
         .filter(|e| &e.zone == climate)
         .map(|e| (e.orientation, e.dir[6] + e.dif[6]))
